@@ -419,7 +419,6 @@ Section Hist.
     - split_step; auto.
     - split_step; auto.
     - split_step; auto.
-    - auto.
   Qed.
 
   Lemma gcsel_step s x p :
@@ -447,7 +446,6 @@ Section Hist.
     - split_step; auto.
     - split_step; auto.
     - split_step; auto.
-    - auto.
   Qed.
 
   Lemma diskedit_out_of_cat s es p ts :
@@ -843,7 +841,6 @@ Proof.
   - simpl in H2. destruct (aget N.eqb q (queries s)) as [[? []]|]; simpl in H2; congruence.
   - simpl in H2. destruct (aget N.eqb q (queries s)) as [[? []]|]; simpl in H2; congruence.
   - simpl in H2. destruct (aget N.eqb q (queries s)) as [[? []]|]; simpl in H2; congruence.
-  - simpl in H2. congruence.
 Qed.
 
 (* ------------------------------------------------------------------ *)
